@@ -96,7 +96,7 @@ func funcKey(fn *types.Func) string {
 	}
 	fn = fn.Origin()
 	p := fn.Pkg().Path()
-	if !(p == modulePath || strings.HasPrefix(p, modulePath+"/") || !strings.Contains(p, ".")) {
+	if !(p == modulePath || strings.HasPrefix(p, modulePath+"/")) {
 		return ""
 	}
 	recv := ""
@@ -138,7 +138,7 @@ func loadModule() *module {
 		var astFiles []*ast.File
 		for _, e := range entries {
 			nm := e.Name()
-			if !strings.HasSuffix(nm, ".go") || strings.HasSuffix(nm, "_test.go") || strings.Contains(nm, "_verif") {
+			if !strings.HasSuffix(nm, ".go") || strings.HasSuffix(nm, "_test.go") || strings.HasSuffix(nm, "_verif.go") {
 				continue
 			}
 			f, err := parser.ParseFile(m.fset, filepath.Join(dir, nm), nil, parser.SkipObjectResolution)
@@ -267,16 +267,7 @@ func loadModule() *module {
 				return true
 			})
 			ast.Inspect(f, func(n ast.Node) bool {
-				switch x := n.(type) {
-				case *ast.SelectorExpr:
-					if callFuns[x] {
-						// the selector is called: its Sel is not a value use, but x.X may contain one
-						ast.Inspect(x.X, func(n ast.Node) bool { return true })
-					}
-				case *ast.Ident:
-					if callFuns[x] {
-						return true
-					}
+				if x, ok := n.(*ast.Ident); ok && !callFuns[x] {
 					if fn, ok := pd.info.Uses[x].(*types.Func); ok {
 						if fi := m.funcs[funcKey(fn)]; fi != nil {
 							fi.entry = true
@@ -326,12 +317,7 @@ func (m *module) callee(pd *pkgData, ce *ast.CallExpr) (fi *funcInfo, recvExpr a
 	if fn == nil {
 		return nil, nil, nil
 	}
-	fi = m.funcs[funcKey(fn)]
-	if fi == nil {
-		recvExpr2 := recvExpr
-		return nil, recvExpr2, fn
-	}
-	return fi, recvExpr, fn
+	return m.funcs[funcKey(fn)], recvExpr, fn
 }
 
 // factRec is one regenerated fact. pkg, fn, kind, what (and owner for C18) are compared by the classification; info is
